@@ -12,6 +12,11 @@
   Not modelled: the OS side of stdout / files, Rust's float formatting (`{:e}`): the table
   cells enter as already formatted strings.
 
+  Continued in `PrintWrite.lean` (`impl Write for PrintTarget` over sinks that answer short
+  counts / `Interrupted` / errors; `write_all`) and `PrintHeader.lean` (`print_configuration`
+  with `print_settings` and the chordal block, `print_status_header`, `print_footer`, the
+  banner, the whole log of a solve; float formatting as a parameter).
+
   Imports only `ClarabelModel.Loop` (the event order comes from the loop skeleton).
 -/
 import ClarabelModel.Loop
